@@ -78,6 +78,11 @@ CHECKS.update({
    text="Every unit-cost string of the alphabet (integers incl. 0 and 2^32-1, decimals, malformed text) x 4 sub-types x boundary consumed/quota values is sent over a real Diameter connection to the server started by rf.OpenServer; price / allowed units must be exact, the tariff must decode at the CHF (getUnitCost arithmetic) to the unit cost applied, every request must be answered and another subscriber must still be served afterwards.",
    ref="6 C08", note=TB_E1),
 })
+CHECKS.update({
+ "C17": dict(engine=E2, technique="bounded-exhaustive enumeration of message values (single + pairwise deviations) through the real go-diameter marshal/serialise/parse/unmarshal path with the chf dictionaries; exhaustive static resolution of every avp struct tag",
+   text="For each of the four message structures the base message and every value within 2 deviations (boundary values of every scalar, string lengths 0/1/255/4096 and raw octets, every optional grouped AVP present/absent) is marshalled, written, re-read and unmarshalled and compared field by field; every avp tag of every struct of ccs_diameter/datatype (registry generated from the tree) must resolve in the loaded dictionaries with a matching data type, and AVP codes/names in the chf dictionaries must be unique.",
+   ref="6 C17", note=TB_E2),
+})
 NA_REASON = "check under construction (see DESIGN.md section 6)"
 
 m = {"version": 1, "setup_cmd": "./setup.sh",
